@@ -24,6 +24,12 @@ Act(s, a, h, p) ==
                                   !.hs[h] = [st |-> "open", p |-> p, cas |-> (a # "openstats"), clones |-> 0, stats |-> TRUE, wrote |-> TRUE]],
                   res |-> "ok"]
             ELSE [s |-> [s EXCEPT !.hs[h] = IF h = s.holder THEN @ ELSE [NoHandle EXCEPT !.st = "failed", !.p = p]], res |-> "AlreadyOpened"]
+      \* an open whose settings the store rejects (another num_ops_per_wal than the directory was created with): while the
+      \* directory is owned it loses like any other open - the lock is taken before the settings are even read -, and when
+      \* the directory is free it is rejected by the settings gate (C19) and does not become the owner
+      [] a = "openbad" ->
+            IF s.holder = 0 THEN [s |-> [s EXCEPT !.hs[h] = [NoHandle EXCEPT !.st = "failed", !.p = p]], res |-> "Settings:ValidationFailed"]
+            ELSE [s |-> [s EXCEPT !.hs[h] = IF h = s.holder THEN @ ELSE [NoHandle EXCEPT !.st = "failed", !.p = p]], res |-> "AlreadyOpened"]
       [] a = "clone" -> IF s.hs[h].cas THEN [s |-> [s EXCEPT !.hs[h].clones = @ + 1], res |-> "ok"] ELSE [s |-> s, res |-> "nohandle"]
       [] a = "dropclone" -> IF s.hs[h].clones > 0 THEN [s |-> Release([s EXCEPT !.hs[h].clones = @ - 1]), res |-> "ok"] ELSE [s |-> s, res |-> "nohandle"]
       [] a = "dropcas" -> IF s.hs[h].st = "open" THEN [s |-> Release([s EXCEPT !.hs[h].cas = FALSE]), res |-> "ok"] ELSE [s |-> s, res |-> "nohandle"]
